@@ -215,6 +215,7 @@ class Link:
         self.reader = None
         self.write_count = 0
         self.opened_at = self.loop.time()
+        self.up_step = self.loop.steps
 
     # peer -> client
     def feed(self, data: bytes):
@@ -260,6 +261,14 @@ class Link:
                 self.dead = True
                 self.transport._closing = True
                 self.loop.call_soon(self.transport._call_lost, act[1] if len(act) > 1 else ConnectionResetError("write failed"))
+            elif kind == "pause_eof":
+                # back-pressure AND the peer closes its sending side while the client is waiting in drain()
+                self.resume_step = max(getattr(self, "resume_step", 0), self.loop.steps + act[1])
+                if not getattr(self, "paused", False):
+                    self.paused = True
+                    self.protocol.pause_writing()
+                gw.session.at_step(self.resume_step, self._resume)
+                self.loop.call_soon(self.eof)
             elif kind == "pause":
                 # transport buffer above high water: the stream protocol is told to pause (once, like a real transport does
                 # when the mark is crossed); it is resumed `steps` loop steps after the last pause request
@@ -405,6 +414,8 @@ class Session:
                 raise RuntimeError("status callback failure (injected)")
             if self.status_mode == "slow":
                 await asyncio.sleep(0.3)
+            if self.status_mode == "slow_connected" and state.name == "CONNECTED":
+                await asyncio.sleep(0.5)       # an application that does real work when the link comes up
 
         async def on_receive(msg):
             i = len(self.received)
